@@ -82,7 +82,7 @@ def simple_check(prop, harness, level, rule, assumptions, trusted, gens=("v2", "
     return fn
 
 
-C20 = simple_check("C20", "c20", "model_checking",
+_C20_clean = simple_check("C20", "c20", "model_checking",
     rule="every directory tree of the bounded grammar (file kinds G=x.gr.go, M=manifest, U=user.go, N=notes.txt, B=y.gr.go.bak; sub-directories as multisets of smaller trees; budgets per level in sub_checks.bounds) is materialised on tmpfs, cleaned with the real CleanTargetDir, compared with a set-based reference model, and cleaned again (idempotence); states = trees, transitions = CleanTargetDir calls; a class is (target mode, removal outcome)",
     assumptions=["entry kinds are regular files and directories (no symlinks, no unreadable directories)",
                  "a manifest is generator-owned at every depth (generation with a package root writes it below the target, and cleaning applies the same rules at every level)",
@@ -339,3 +339,39 @@ C11 = codec_check("C11", "C11", "model_checking", universes=("constraints", "con
     rule="exhaustive enumeration of constraint-violating and constraint-satisfying values and documents on generated bindings: unions (5 unions, every subset of members set, documents with 0/1/2 members, unknown member) both directions in JSON and ROR2; fixed (sizes 1, 2, 16 x payload lengths 0..size+2); enums (constants -1..n+1; symbol strings declared / unknown / wrong case / padded / numeric); partial updates (4 records x every assignment of a subset of {delete, set, nested patch} to each field with a family of nested patches x 3 exclusion specs): encode errors iff the constraint is violated, decoding the equivalent reference document errors iff violated, legal patches emit the protocol's patch/$set/$delete document and round-trip; states = values / patches, transitions = encode or decode calls")
 
 from c12 import C12
+
+
+def C20(sc, tier, replay, t0):
+    """Directory cleaning (harness/c20) + the generator-level clauses of the statement: hand-written
+    custom typeref files beside generated code are located, never generated over, modified or removed,
+    and regeneration reproduces the same files (lib/c12.py on the schema sets with custom typerefs)."""
+    if replay:
+        return _C20_clean(sc, tier, replay, t0)
+    import io, contextlib, c12
+    # run the cleaning part without letting it write the evidence: capture its merged report
+    captured = {}
+    orig_finish = D.finish
+    def fake_finish(prop, tier_, level, merged, t0_, **kw):
+        captured["merged"], captured["kw"] = merged, kw
+        return 0
+    D.finish = fake_finish
+    try:
+        _C20_clean(sc, tier, None, t0)
+    finally:
+        D.finish = orig_finish
+    merged, kw = captured["merged"], captured["kw"]
+    subs, failures, samples, notes, capped = c12.run_part_a(
+        sc, tier, ["v2"], select=lambda e: bool(e.get("Files")), rots=[0, 1, 2, 3] if tier == "thorough" else [0, 1], universes=False)
+    for name, sd in subs.items():
+        if name.endswith("/compile") or name.endswith("/vet") or name.endswith("/deterministic"):
+            continue
+        sd = dict(sd)
+        merged["sub"]["generator-" + name] = sd
+    for f in failures:
+        f = dict(f)
+        f["sig"] = "generator " + f["sig"]
+        f["replay"] = None
+        merged["failures"].append(f)
+    merged["fail_count"] = merged.get("fail_count", 0) + len(failures)
+    kw["rule"] = kw["rule"] + "; plus, for every schema set of the C12 grammar that has hand-written custom typeref files (v2), the real generator run flat, again over its own output, and with the package-root layout: the files are located (no <Type>.gr.go generated beside them), left byte-identical, and the generated tree is reproduced exactly"
+    return D.finish("C20", tier, "model_checking", merged, t0, **kw)
